@@ -120,9 +120,15 @@ def tasks(tier, seed):
     out = []
     import random
     rnd = random.Random(seed)
-    for bi, base in enumerate(BASES):
+    from .. import gen
+    G = [p["text"] for p in gen.programs(tier, seed, 12, 90, "std", components=False, comments=False)
+         if len(p["meta"]["states"]) + len(p["meta"]["inters"]) >= 2
+         and not any(ln[:1] in " \t" for ln in p["text"].splitlines())][:4 if tier == "quick" else 30]   # one-line declarations only
+    for bi, base in enumerate(BASES + G):
         combos = [(p, c) for p in PLACES for c in COMMENTS]
-        if tier == "quick":
+        if bi >= len(BASES):
+            combos = rnd.sample(combos, 20 if tier == "quick" else 40)
+        elif tier == "quick":
             keep = [(p, c) for p, c in combos if p in ("inside-expressions", "trailing") and c in ("a plain comment", "mV", "(", "1/0", "", "x")]
             keep += [(p, c) for k, c in enumerate(SEPARATORS) for p in (PLACES[k % len(PLACES)], "trailing")]
             keep = list(dict.fromkeys(keep))
